@@ -85,6 +85,12 @@ func c20Packets() []c20Pkt {
 		{Name: "noise-32", Data: c20Noise("n32", 32)},
 		{Name: "noise-33", Data: c20Noise("n33", 33)},
 		{Name: "empty", Data: []byte{}},
+		// a QUIC short-header packet (form bit 0, fixed bit 1 => first byte 0x41) whose bytes happen
+		// to look like a binding success apart from the two most significant type bits, which
+		// RFC 5389 section 6 requires to be zero precisely so that STUN can be told from other
+		// protocols multiplexed on the same port (observation handed over by the C03 check)
+		{Name: "quic-short-stun-lookalike-0x4101", Data: c20STUN(0x4101, 0x2112A442, 1, 0)},
+		{Name: "quic-long-stun-lookalike-0xc101", Data: c20STUN(0xc101, 0x2112A442, 1, 0)},
 	}
 	for i := range list {
 		list[i].From = c20UDP(byte(10+i), 5000+i)
@@ -438,6 +444,17 @@ func c20DemuxEnumerate(sh *evidence.Shard) {
 					if err := t.Apply(o); err != nil {
 						if probeErr == nil {
 							probeErr, probeHist = err, append([]c20Op{}, t.hist...)
+							// minimal form: the state's history + the failing delivery alone
+							short := append(append([]c20Op{}, src.hist...), o)
+							u := c20NewSys(pkts)
+							for i, so := range short {
+								if e2 := u.Apply(so); e2 != nil {
+									if i == len(short)-1 {
+										probeErr, probeHist = e2, short
+									}
+									break
+								}
+							}
 						}
 						sb.WriteString("ERR ")
 					}
